@@ -140,6 +140,10 @@ def r4_pairing(ctx):
         strips = [c for c in ast.walk(fn) if isinstance(c, ast.Call) and call_name(c) == "to_unitless"]
         ok = sorted(U(c.args[0]) for c in strips) == sorted(spec["strips"]) and all(len(c.args) == 2 and U(c.args[1]) == un for c in strips)
         ctx.check(ok, a, "strip-with-unit", "every operand must be stripped with `%s`: %s" % (un, [U(c) for c in strips]), node=fn)
+        cond = [n for n in ast.walk(fn) if isinstance(n, (ast.IfExp, ast.If)) and any(isinstance(x, ast.Call) and call_name(x) in ("to_unitless", "magnitude") for x in ast.walk(n))]
+        bare = [c for c in ast.walk(fn) if isinstance(c, ast.Call) and call_name(c) == "magnitude"]
+        ctx.check(not cond and not bare, a, "conversion-unconditional", "every operand must go through to_unitless(..., %s) -- no shortcut that takes the bare magnitude when the units 'look equal' "
+                  "(a plain number compares equal to a unit): %s" % (un, [U(x)[:80] for x in cond + bare]), node=(cond + bare)[0] if cond or bare else fn)
         ret = [n for n in walk_shallow(fn) if isinstance(n, ast.Return)][-1]
         c, p = monomial(ret.value)
         ok = c == 1 and p.get(un) == {"1": F1} and len(p) == 2
@@ -428,3 +432,5 @@ MUTANTS.append(Mutant("to_unitless-equal-units-shortcut", [(UNITS, "            
 # shared rule A3 (guarded helpers)
 MUTANTS.append(Mutant("is-quantity-other-class", [("chempy/units.py", 'if arg.__class__.__name__ == "Quantity":', 'if arg.__class__.__name__ == "UncertainQuantity":')], "C09-A3", "guarded-helper-changed"))
 TWINS.append(Twin("is-quantity-direct-return", [("chempy/units.py", '    if arg.__class__.__name__ == "Quantity":\n        return True  # this checks works even if quantities is not installed.\n    else:\n        return False\n', '    return arg.__class__.__name__ == "Quantity"\n')]))
+
+MUTANTS.append(Mutant("concatenate-equal-unit-shortcut", [(UNITS, "    result = np.concatenate([to_unitless(arr, unit) for arr in arrays], **kwargs)", "    result = np.concatenate([magnitude(arr) if unit_of(arr) == unit else to_unitless(arr, unit) for arr in arrays], **kwargs)")], "C09-R4", "conversion-unconditional"))
